@@ -51,7 +51,7 @@ Definition trace_of {A} (R : reader) posof (p : prog A) (s : rst R) : list (op *
 (* the interval of the input an operation of the ideal cursor looks at, as (start, length) *)
 Definition read_span (inp : input) (o : op) (pos : N) : option (N * N) :=
   match o with
-  | OReadExact n => if pos + n <=? ilen inp then Some (pos, n) else None
+  | OReadExact n => if (n =? 0) || (pos + n <=? ilen inp) then Some (pos, n) else None
   | OReadUpTo n => Some (pos, N.min n (ilen inp - pos))
   | _ => None
   end.
@@ -63,7 +63,7 @@ Definition agree_on (i1 i2 : input) (tr : list (op * N)) : Prop :=
 (* the interval an operation passes over when it succeeds: reads and skips *)
 Definition covered (inp : input) (lenient : bool) (ms : N) (o : op) (pos : N) : N :=
   match o with
-  | OReadExact n => if pos + n <=? ilen inp then n else 0
+  | OReadExact n => if (n =? 0) || (pos + n <=? ilen inp) then n else 0
   | OReadUpTo n => N.min n (ilen inp - pos)
   | OSkip n => if lenient then (if pos + n <=? ms then n else 0) else (if pos + n <=? ilen inp then n else 0)
   | _ => 0
